@@ -73,6 +73,13 @@ class VC:
         cls = self.interp.get_class(class_fq)
         o = Obj(cls)
         o.fields.update(fields)
+        if class_fq == "rpylib.product.product:Product" and "_process_representation" not in o.fields:
+            # an abstract product stands for one that has not been set up for a logarithmic process: the constructor's
+            # default (kept in one place: the contracts hand-build products where only a few attributes matter)
+            try:
+                o.fields["_process_representation"] = self.enum("rpylib.process.process:ProcessRepresentation", "IDENDITY")
+            except Exception:
+                pass
         return o
 
     def fresh(self, name, kind):
